@@ -738,6 +738,32 @@ func c10tree(c *Ctx) {
 					fail("sublogger", "Sublogger of an unknown name is not nil")
 					return
 				}
+				// a name that is looked up BEFORE it exists, from every ancestor, then created, then looked up again
+				lateOK := func() bool {
+					late := fmt.Sprintf("late-%d-%d", idx, k)
+					under := sub[r.Intn(len(sub))]
+					for a := under; a != nil; a = a.parent {
+						if a.e.Sublogger(late) != nil {
+							fail("sublogger", fmt.Sprintf("Sublogger(%q) on %s found a logger that was never created", late, a.name))
+							return false
+						}
+					}
+					history = append(history, fmt.Sprintf("New(name)-after-lookup-miss@%s", under.name))
+					made := under.e.New(late)
+					mn := e.withChild(under, made)
+					for a := under; a != nil; a = a.parent {
+						if got := a.e.Sublogger(late); got != made {
+							fail("sublogger", fmt.Sprintf("Sublogger(%q) on %s (an ancestor %d level(s) up) returns %v after the logger was created under %s; it answered nil before the creation", late, a.name, mn.depth-a.depth, got != nil, under.name))
+							return false
+						}
+					}
+					after = snapshot()
+					c.R.Add("lookups_before_and_after_creation", 1)
+					return true
+				}
+				if r.P(25) && !lateOK() {
+					return
+				}
 				c.R.Add("lookups", 1)
 			}
 			before = after
@@ -789,6 +815,24 @@ func c10defaultLevel(c *Ctx) {
 		for _, x := range seq {
 			old := slog.New("before" + x.String())
 			oldLevel := old.Level()
+			// the default logger's own level may already be x (set on the logger itself, or a new default logger
+			// configured before it was installed): that is a Set on one logger and leaves the package default alone
+			switch r.Intn(4) {
+			case 0:
+				cur := slog.GetLevel()
+				slog.Default().SetLevel(x)
+				hist = append(hist, "Default().SetLevel("+x.String()+")")
+				if !check("after-Default().SetLevel("+x.String()+")", cur) {
+					return
+				}
+			case 1:
+				cur := slog.GetLevel()
+				slog.SetDefault(slog.New("app" + x.String()).SetLevel(x))
+				hist = append(hist, "SetDefault(New.SetLevel("+x.String()+"))")
+				if !check("after-SetDefault(New().SetLevel("+x.String()+"))", cur) {
+					return
+				}
+			}
 			slog.SetLevel(x)
 			hist = append(hist, x.String())
 			if !check("after-SetLevel("+x.String()+")", x) {
